@@ -64,7 +64,7 @@ def main(cases, oracle, bound, budget_s=(30, 300)):
     if a.replay:
         rec = json.load(open(a.replay))
         inp = rec['native_input']
-        r = guarded(oracle, inp)
+        r = guarded(oracle, inp, seconds=60)
         print('input:', json.dumps(inp)[:2000])
         if r:
             print('FAILS on this tree:', r)
@@ -80,7 +80,9 @@ def main(cases, oracle, bound, budget_s=(30, 300)):
     seen = set()
     extra = []
     if a.inputs:
-        extra = json.load(open(a.inputs))
+        # inputs concretised from solver models; a model may pick absurd sizes (a 10^7-digit number): such an input says
+        # nothing about the code within the sandbox's time limits and is not replayed
+        extra = [x for x in json.load(open(a.inputs)) if len(json.dumps(x)) <= 100000]
     import itertools
     keep = []            # sample of inputs evaluated a second time at the end: same input, different call history
     for inp in itertools.chain(extra, cases(a.tier, rng)):
